@@ -24,6 +24,8 @@ from netqasm.lang.parsing import deserialize  # noqa: E402
 from netqasm.lang.subroutine import Subroutine  # noqa: E402
 
 PID = "C01"
+ITEM_BUDGET_S = 15
+DEADLINE = None      # set by main() before the workers are forked: wall-clock cap of the whole round-trip stage
 FLAVS = ("vanilla", "nv", "reids")
 
 
@@ -104,7 +106,7 @@ def make_body(flav_name, cls_names, banks_per_slot, falsify=False):
 
 def work_roundtrip(item):
     flav_name, cls_names, banks_list = item
-    ex = Explorer()
+    ex = Explorer(max_paths=1500, budget_s=8, max_cex=12)
     samples = []
     for banks_per_slot in banks_list:
         ex.run(make_body(flav_name, cls_names, banks_per_slot))
@@ -125,8 +127,14 @@ def work_roundtrip_one(item):
     total = None
     out_cex = []
     ex_all = Explorer()
+    t_item = time.time()
     for banks_per_slot in banks_list:
-        ex = Explorer()
+        # the unchanged tree needs a handful of paths per bank assignment; the caps only matter when a change makes the code
+        # branch on decoded operand values (e.g. a cache keyed by them) -- violations found before the cap are still reported
+        if time.time() - t_item > ITEM_BUDGET_S or (DEADLINE is not None and time.time() > DEADLINE):
+            ex_all.aborts.append("item time budget exceeded; remaining bank assignments not explored")
+            break
+        ex = Explorer(max_paths=1500, budget_s=8, max_cex=12)
         ex.run(make_body(flav_name, cls_names, banks_per_slot))
         ex_all.stats.add(ex.stats)
         ex_all.aborts += ex.aborts
@@ -294,20 +302,22 @@ def main(tier, seed):
                     banks = [tuple(bank_assignments(n_regs(shape_kinds(x)), "quick")[1]) if n_regs(shape_kinds(x)) else ()
                              for x in (c,) + tuple(tail)]
                     items.append((fname, names, [tuple(banks)]))
+    global DEADLINE
+    DEADLINE = time.time() + (3600 if tier == "thorough" else 240)
     results = pmap(work_roundtrip_one, items)
     for r in results:
         rep.merge_worker("roundtrip", r)
     rep.section("roundtrip", None, items=len(items))
 
     # vacuity guard: falsified oracle must be refuted and reproduce
-    ex = Explorer()
+    ex = Explorer(max_paths=3000, budget_s=90)
     ex.run(make_body("vanilla", ("SetInstruction",), [(0,)], falsify=True))
     ok = any(c.label == "meta" and c.values.get("app_id") == 0xBEEF for c in ex.cexs)
     rep.witness("roundtrip with oracle 'app id != 0xBEEF'", ok, f"cex={[c.values for c in ex.cexs][:1]}")
 
     def one_path():
         if codec.MODEL:
-            e = Explorer()
+            e = Explorer(max_paths=4, budget_s=30)
             e.run(make_body("vanilla", ("StoreInstruction", "WaitAllInstruction"), [(0, 1), (2, 3)]))
     rep.functions_encoded |= trace_functions(one_path)
     return rep.finish(replay)
